@@ -1,6 +1,8 @@
 //! Check registry: maps property ids to worker / replay implementations.
 
+pub mod crash;
 pub mod history;
+pub mod logfmt;
 
 use crate::runner::*;
 use serde_json::Value;
@@ -9,6 +11,7 @@ pub const HISTORY_IDS: &[&str] = &["C01", "C03", "C04", "C07", "C09", "C10", "C1
 
 pub fn all_ids() -> Vec<&'static str> {
     let mut v: Vec<&'static str> = HISTORY_IDS.to_vec();
+    v.extend(["C02", "C16", "C12"]);
     v.sort();
     v
 }
@@ -26,12 +29,42 @@ pub fn meta(id: &str) -> Option<CheckMeta> {
             ],
         });
     }
-    None
+    let fs_assume = vec![
+        "crash model: the process dies between two filesystem calls; every completed call is durable, nothing else is (the journal of MemFs is the total order of mutating calls)".to_string(),
+        "raindb built from /repo's working tree with the cargo feature verif_hooks (hooks only add code)".to_string(),
+    ];
+    match id {
+        "C02" => Some(CheckMeta {
+            id: "C02",
+            level: "fault_enumeration",
+            rule: "proptest-generated write workloads (puts, deletes, batches, fills, flushes, compact_range, reopens with re-drawn configs, values up to 100 kB) run on a journalling MemFs; for every journal prefix k (quick: all k for journals <= 400 entries, else every create/rename/remove boundary plus a hashed quarter of the appends) the image is rebuilt, opened (reuse_log_files and config varied per point), and must equal the state after the acknowledged batches, optionally plus the whole in-flight batch; then a fresh write, clean close, reopen, equality. 1/16 of the points additionally crash the recovery itself at ~6 of its own journal prefixes (depth 2). evaluations = crash points evaluated; non-trivial = crash point strictly inside an API call or background work with >=1 acknowledged batch; distinct by (workload hash, k)".into(),
+            assumptions: fs_assume,
+        }),
+        "C16" => Some(CheckMeta {
+            id: "C16",
+            level: "fault_enumeration",
+            rule: "same journalled workloads; every append of n>=2 bytes to a WAL, manifest or CURRENT temp file is cut to 1, n/2 and n-1 bytes (thorough: every length for n<=64 and the 6/7/8-byte header boundary), the image is recovered with reuse_log_files true and false, must equal acknowledged (+ optionally in-flight) state, then 1-5 further writes (one of 40 kB in half of the points) are acknowledged, the database is closed and reopened with either setting and must contain them. evaluations = torn images evaluated; non-trivial = the torn file was reused by the recovery, or the tear is inside a fragment of a multi-fragment record; distinct by (workload hash, entry, length, settings)".into(),
+            assumptions: fs_assume,
+        }),
+        "C12" => Some(CheckMeta {
+            id: "C12",
+            level: "exploration",
+            rule: "round-trip through the crate's LogWriter/LogReader (verif wrappers) on MemFs: a case is 1-4 writer segments (each a list of record lengths drawn from {0,1,2, 7+-3, 32761+-9, 32768+-9, 65522+-9, 65536+-9, 100000, uniform}) ended by a clean close or by the writer dying between two fragments of its last record (file truncated at that fragment boundary), a new writer reopening in append mode, and an optional final truncation at any byte; the reader must return exactly the complete records, byte for byte and in order, then end-of-log, never an error or a record that was not appended; the file length is cross-checked against an independent model of the block layout. Plus an enumerated family: every reachable block offset within 20 bytes of a block boundary (in block 0 and 1) x every record length within 20 of the remaining room (quick: 1/8 of the family rotated by seed; thorough: all). Non-trivial = a record starts/ends within 8 bytes of a block boundary or spans blocks, or a reopen/cut falls inside a block; distinct by case hash".into(),
+            assumptions: vec!["MemFs returns full reads; LogReader/LogWriter are reached through thin wrappers in src/verif.rs".into()],
+        }),
+        _ => None,
+    }
 }
 
 pub fn worker(ctx: &WorkerCtx) -> WorkerResult {
     if HISTORY_IDS.contains(&ctx.id.as_str()) {
         return history::worker(ctx);
+    }
+    match ctx.id.as_str() {
+        "C02" => return crash::worker(ctx, "C02", 60, 3000),
+        "C16" => return crash::worker(ctx, "C16", 60, 2000),
+        "C12" => return logfmt::worker(ctx),
+        _ => {}
     }
     panic!("unknown check {}", ctx.id);
 }
@@ -40,6 +73,8 @@ pub fn worker(ctx: &WorkerCtx) -> WorkerResult {
 pub fn replay_value(v: &Value) -> Result<(), String> {
     match v["engine"].as_str().unwrap_or("") {
         "history" => history::replay(v),
+        "crashpoint" => crash::replay(v),
+        "logfmt" => logfmt::replay(v),
         other => Err(format!("unknown replay engine {other:?}")),
     }
 }
